@@ -153,6 +153,58 @@ def wl_ccf(ctx, rng, case):
     _ccf_run(ctx, rng, case, refill=False)
 
 
+def wl_ccf_big_growing(ctx, rng, case):
+    """a counting cuckoo filter of 500 .. 2000 bins (wide or narrow buckets) that may grow on its own, filled with distinct keys far beyond
+    its first size: from 60 % load on, the key just added - and a sample of the earlier ones - must report exactly its outstanding
+    additions after every call (crowded big tables, the expansions they trigger, and everything placed right before and after them)"""
+    import random as stdrandom
+
+    import probables as P
+
+    cap, bsz = rng.choice([(64, 8), (128, 4), (100, 6), (40, 16), (300, 2), (520, 1), (256, 4)])
+    swaps = rng.choice([5, 20, 100, 500])
+    rate = rng.choice([2, 2, 3])
+    stdrandom.seed(rng.getrandbits(32))
+    f = P.CountingCuckooFilter(capacity=cap, bucket_size=bsz, max_swaps=swaps, expansion_rate=rate, auto_expand=True, finger_size=4)
+    cfg = ck.Cfg(True, cap, bsz, swaps, 4, True, rate, "library_default", None)
+    case.desc = {"kind": "big growing counting cuckoo", "capacity": cap, "bucket_size": bsz, "max_swaps": swaps, "expansion_rate": rate}
+    out = Counter()   # outstanding additions per raw fingerprint
+    keys = []
+    n = int(cap * bsz * rng.choice([1.1, 1.6, 2.5]))
+    caps = {cap}
+    for i in range(n):
+        key = f"grow-{case.index}-{i}" if i % 7 else b"grow-%d-%d" % (case.index, i)
+        fp = cfg.raw_fp(key)
+        if fp == 0:
+            continue
+        f.add(key)
+        out[fp] += 1
+        keys.append(key)
+        if rng.random() < 0.1:
+            f.add(key)
+            out[fp] += 1
+        caps.add(f.capacity)
+        if len(keys) < 0.6 * cap * bsz:
+            continue
+        probe = [key] + ([rng.choice(keys) for _ in range(3)] if i % 5 else rng.sample(keys, min(len(keys), 40)))
+        for kx in probe:
+            ctx.counters["oracle_evaluations"] += 1
+            got, want = f.check(kx), out[cfg.raw_fp(kx)]
+            if got != want:
+                ctx.fail(f"counting cuckoo filter reports {got} for a key whose fingerprint has {want} outstanding additions, after addition #{i} of a big growing table "
+                         f"(capacity now {f.capacity}, {len(keys)} keys)", key=kx, capacities_seen=sorted(caps))
+    ctx.check(f.elements_added == sum(out.values()), "elements_added of a big growing counting cuckoo filter is not the number of outstanding additions", got=f.elements_added, want=sum(out.values()))
+    for kx in rng.sample(keys, min(len(keys), 60)):
+        fp = cfg.raw_fp(kx)
+        if out[fp]:
+            ctx.check(f.remove(kx) is True, "removal of a key with outstanding additions was refused in a big growing table", key=kx)
+            out[fp] -= 1
+            ctx.check(f.check(kx) == out[fp], "count after a removal in a big growing table is not one less", key=kx, got=f.check(kx), want=out[fp])
+    ctx.count("ccf.big_growing_tables")
+    ctx.count("ccf.big_growing_expansions", len(caps) - 1)
+    case.nontrivial = len(caps) > 1
+
+
 def wl_ccf_after_refusals(ctx, rng, case):
     """counting cuckoo: a crowded table (bins spilled into second buckets), some keys removed completely (free slots in first buckets), then
     expansions that are REFUSED and rolled back (non-growing rate / one or two swaps), then more adds, removals and an explicit expansion:
@@ -369,6 +421,7 @@ PROP = Prop(
         Workload("ccf", wl_ccf, quick=250, thorough=3500),
         Workload("ccf_refill", wl_ccf_refill, quick=150, thorough=2200),
         Workload("ccf_after_refusals", wl_ccf_after_refusals, quick=300, thorough=2500),
+        Workload("ccf_big_growing", wl_ccf_big_growing, quick=14, thorough=280),
     ],
     assumptions=["below saturation; removals never exceed the key's outstanding count",
                  "history independence compares the library with itself on another history (fresh filter fed the outstanding multiset); cell semantics are pinned by C06/C16",
